@@ -62,8 +62,8 @@ theorem explicitField_split {k : Nat} {w : Want} {bs : Bytes} {r : Option (Elem 
   · split at h
     · rename_i hd after heq
       split at h
-      · cases h
       · split at h
+        · cases h
         · split at h
           · cases h
           · split at h
@@ -83,7 +83,7 @@ theorem explicitField_split {k : Nat} {w : Want} {bs : Bytes} {r : Option (Elem 
                 · cases h
             · cases h
             · cases h
-        · simp at h; obtain ⟨h1, h2⟩ := h; subst h1; subst h2; simp [consumed]
+      · simp at h; obtain ⟨h1, h2⟩ := h; subst h1; subst h2; simp [consumed]
     · cases h
     · cases h
 
